@@ -155,20 +155,23 @@ Definition seq_part : parser unit :=
   seq_idx ;;;
   b <- peek ;;
   if head_is COLON b then lex (lex_byte COLON) ;;; seq_idx else ret tt.
-(* state: has an element been read *)
-Definition seq_step (any : bool) : parser (bool + bool) :=
-  b <- peek ;;
-  if is_empty b then ret (inr any)
-  else
-    seq_part ;;;
-    b' <- peek ;;
-    if is_empty b' then ret (inr true)
-    else if head_is COMMA b' then lex (lex_byte COMMA) ;;; ret (inl true)
-    else ret (inr true).
+(* SequenceSet.parse:  while buf: item; if buf and buf[0] != ',': break; buf = buf[1:]
+   and at least one item.  Written with the first item outside the loop; the
+   loop state says nothing, each round starts behind an item. *)
+Definition seq_tail_step (_ : unit) : parser (unit + unit) :=
+  b' <- peek ;;
+  if is_empty b' then ret (inr tt)
+  else if head_is COMMA b' then
+    lex (lex_byte COMMA) ;;;
+    b <- peek ;;
+    if is_empty b then ret (inr tt) else seq_part ;;; ret (inl tt)
+  else ret (inr tt).
 Definition p_seqset : parser unit :=
   p_opt_space ;;;
-  any <- loop F seq_step false ;;
-  guard any FPlain.
+  b <- peek ;;
+  guard (negb (is_empty b)) FPlain ;;;
+  seq_part ;;;
+  loop F seq_tail_step tt.
 
 (* ------------------------------------------------------------------ specials *)
 (* Flag.parse; the value says whether it is a system flag *)
